@@ -83,6 +83,36 @@ Theorem uptodate_file_metadata :
                     (l_link st) (l_rdev st) (l_nonempty st)) c.
 Proof. exact entry_step_uptodate. Qed.
 
+(** Owner and group by name: the entry the generator and receiver work with
+    is [localise um gm e], where [um] / [gm] come from the id lists the
+    sender transmitted ([id_map_of lookup ids], [lookup] = the local user /
+    group database).  An id listed with a name that exists locally becomes
+    the local id of that name; an id listed with an unknown name, and an id
+    that is not listed at all, is kept as it is.  (All theorems above hold
+    for every entry, hence for the localised one.) *)
+Theorem listed_known_name_maps_to_local_id :
+  forall lookup ids id name l,
+    NoDup (map fst ids) -> In (id, name) ids -> lookup name = Some l ->
+    map_id (id_map_of lookup ids) id = l.
+Proof. exact id_map_of_known. Qed.
+
+Theorem listed_unknown_name_keeps_the_id :
+  forall lookup ids id name,
+    NoDup (map fst ids) -> In (id, name) ids -> lookup name = None ->
+    map_id (id_map_of lookup ids) id = id.
+Proof. exact id_map_of_unknown_name. Qed.
+
+Theorem unlisted_id_is_kept :
+  forall lookup ids id, (forall name, ~ In (id, name) ids) -> map_id (id_map_of lookup ids) id = id.
+Proof. exact id_map_of_unlisted. Qed.
+
+Theorem localise_changes_only_the_owner :
+  forall um gm e,
+    e_uid (localise um gm e) = map_id um (e_uid e) /\ e_gid (localise um gm e) = map_id gm (e_gid e) /\
+    e_name (localise um gm e) = e_name e /\ e_mode (localise um gm e) = e_mode e /\
+    e_mtime (localise um gm e) = e_mtime e /\ e_link (localise um gm e) = e_link e /\ e_rdev (localise um gm e) = e_rdev e.
+Proof. intros. repeat split; reflexivity. Qed.
+
 (** setPerms itself, for any mode and any current Lstat. *)
 Theorem set_perms_exact :
   forall o e mode now st c, g_dry o = false ->
@@ -104,3 +134,5 @@ Print Assumptions device_metadata.
 Print Assumptions transferred_file_metadata.
 Print Assumptions uptodate_file_metadata.
 Print Assumptions set_perms_exact.
+Print Assumptions listed_known_name_maps_to_local_id.
+Print Assumptions unlisted_id_is_kept.
